@@ -1,7 +1,7 @@
 (* Dispatch.v -- single entry point of the executable model: opcode * argument -> result.
    Used identically by the extracted OCaml driver and by in-Coq vm_compute samples. *)
 From Coq Require Import List ZArith.
-From Yv Require Import Base.Sx Run.RunSym Run.RunGeom Run.RunCache.
+From Yv Require Import Base.Sx Run.RunSym Run.RunGeom Run.RunCache Run.RunTrunc.
 Import ListNotations.
 Open Scope Z_scope.
 
@@ -15,6 +15,9 @@ Definition run (op : Z) (arg : sx) : sx :=
   | 13 => run_special arg
   | 14 => run_lattice arg
   | 20 => run_lru arg
+  | 30 => run_mask_block arg
+  | 31 => run_mask_global arg
+  | 32 => run_mask_blocks arg
   | _ => sErr 999
   end.
 
